@@ -22,10 +22,7 @@ Local Open Scope Z_scope.
 Theorem sem_no_over_admission : forall v progs x,
   0 <= v -> ireach v progs x ->
   succeeded x <= v + posts_begun x.
-Proof.
-  intros v progs x Hv R. rewrite <- (ireach_ini v progs x R).
-  exact (over_admission_of_linv x (ireach_linv v progs x Hv R)).
-Qed.
+Proof. exact over_admission_reach. Qed.
 Print Assumptions sem_no_over_admission.
 
 (* the counter is the initial value plus the posts that incremented it (by CAS from a
@@ -38,10 +35,7 @@ Theorem sem_counter_inv : forall v progs x,
   0 <= v -> ireach v progs x ->
   counter (base x) = v + gPcas (g x) + gPwake (g x) - gWfast (g x) - gWslow (g x) - gTok (g x) /\
   Z.max 0 (- counter (base x)) = NPRE (base x) + QLEN (base x) + NPOP (base x) + NADD (base x).
-Proof.
-  intros v progs x Hv R. rewrite <- (ireach_ini v progs x R).
-  exact (counter_of_linv x (ireach_linv v progs x Hv R)).
-Qed.
+Proof. exact counter_reach. Qed.
 Print Assumptions sem_counter_inv.
 
 (* trywait never blocks: while call k of fiber t is a trywait, the fiber is runnable and
@@ -60,13 +54,7 @@ Theorem sem_trywait : forall v progs s t p k,
       if counter s =? c
       then snd (step s t) = ev t (l_word 0) 73 (pc64 (c - 1)) ++ retev t k 1 /\ counter (fst (step s t)) = c - 1
       else snd (step s t) = ev t (l_word 0) 83 (pc64 (counter s)) /\ counter (fst (step s t)) = counter s)).
-Proof.
-  intros v progs s t p k Hv R H. pose proof (reachable_struct v progs s Hv R) as S.
-  split; [intros Ht; exact (trywait_ready s t p k S Ht H)|].
-  destruct (trywait_shape s t p k S H) as [E|[c [Hc E]]].
-  - left. split; [exact E|exact (trywait_load_step s t p k E)].
-  - right. exists c. split; [exact Hc|]. split; [exact E|exact (trywait_cas_step s t p k c E)].
-Qed.
+Proof. exact trywait_reach. Qed.
 Print Assumptions sem_trywait.
 
 (* no lost post, obligation form.  If fiber t is waiting (it announced itself by
@@ -84,10 +72,7 @@ Theorem sem_no_lost_post : forall v progs x t,
   v + posts_effective x - succeeded x <= 0 /\
   (0 < v + posts_begun x - succeeded x ->
    exists u, (u < nthr (base x))%nat /\ post_unwoken (stk (base x) u) /\ status_of (base x) u = SReady).
-Proof.
-  intros v progs x t Hv R. rewrite <- (ireach_ini v progs x R).
-  exact (no_lost_post_of_linv x t (ireach_linv v progs x Hv R)).
-Qed.
+Proof. exact no_lost_post_reach. Qed.
 Print Assumptions sem_no_lost_post.
 
 (* no lost post at quiescence (no fiber can take a step: each has finished or sleeps):
@@ -100,10 +85,7 @@ Theorem sem_no_lost_post_quiescent : forall v progs x,
   posts_begun x = posts_effective x /\
   (mq (mem (base x)) 0%nat <> [] ->
      counter (base x) = - QLEN (base x) /\ v + posts_begun x = succeeded x).
-Proof.
-  intros v progs x Hv R Q. rewrite <- (ireach_ini v progs x R).
-  exact (quiescence_of_linv x (ireach_linv v progs x Hv R) (quiescent_settled _ Q)).
-Qed.
+Proof. exact quiescence_reach. Qed.
 Print Assumptions sem_no_lost_post_quiescent.
 
 (* once activity ceases (every fiber has finished or is inside its sleep; in particular
@@ -115,10 +97,7 @@ Theorem sem_value_at_quiescence : forall v progs x,
   counter (base x) = v + posts_begun x - succeeded x - QLEN (base x) /\
   (mq (mem (base x)) 0%nat = [] ->
      counter (base x) = v + posts_begun x - succeeded x /\ 0 <= counter (base x)).
-Proof.
-  intros v progs x Hv R Q. rewrite <- (ireach_ini v progs x R).
-  exact (value_of_linv x (ireach_linv v progs x Hv R) Q).
-Qed.
+Proof. exact value_reach. Qed.
 Print Assumptions sem_value_at_quiescence.
 
 (* ---- non-vacuity: the hypotheses are met by concrete reachable states ---- *)
